@@ -527,11 +527,11 @@ Proof.
   unfold do_tick.
   match goal with |- context [let '(h1, o1) := ?X in _] => destruct X as [h1 o1] eqn:H1 end.
   assert (R1 : rel0 sid h h1).
-  { destruct (30 <? secs); [|injection H1 as <- <-; apply rel0_refl].
+  { destruct (hub_expire_s <? secs); [|injection H1 as <- <-; apply rel0_refl].
     rewrite (fst_eq _ _ _ H1). apply rel0_fold_sessions. intros hh y. apply rel0_close_session. }
   match goal with |- context [let '(h2, o2) := ?X in _] => destruct X as [h2 o2] eqn:H2 end.
   assert (R2 : rel0 sid h h2).
-  { destruct (10 <? secs); [|injection H2 as <- <-; exact R1].
+  { destruct (hub_anonymous_s <? secs); [|injection H2 as <- <-; exact R1].
     rewrite (fst_eq _ _ _ H2). eapply rel0_trans; [exact R1|]. apply rel0_fold_sessions. intros hh y.
     destruct (get_sess hh y) as [s|]; [|apply rel0_refl].
     match goal with |- context [let '(h3, o3) := ?X in _] => destruct X as [h3 o3] eqn:H3 end.
@@ -540,7 +540,7 @@ Proof.
     destruct (close_session h3 y) as [h4 o4] eqn:H4. cbn [fst]. rewrite (fst_eq _ _ _ H4).
     eapply rel0_trans; [exact R3|apply rel0_close_session]. }
   match goal with |- context [let '(h3, o3) := ?X in _] => destruct X as [h3 o3] eqn:H3 end.
-  cbn [fst]. destruct (2 <? secs); [|injection H3 as <- <-; exact R2].
+  cbn [fst]. destruct (hub_hello_s <? secs); [|injection H3 as <- <-; exact R2].
   rewrite (fst_eq _ _ _ H3). eapply rel0_trans; [exact R2|]. apply rel0_fold_sessions. intros hh y. apply rel0_send_conn.
 Qed.
 
@@ -1330,15 +1330,15 @@ Proof.
 Qed.
 
 Lemma tick_closes_expired h sid secs :
-  In sid (h_expired h) -> 30 < secs -> get_sess (fst (step h (OTick secs))) sid = None.
+  In sid (h_expired h) -> hub_expire_s < secs -> get_sess (fst (step h (OTick secs))) sid = None.
 Proof.
   intros Hin Hlt. cbn [step]. unfold do_tick.
-  destruct (30 <? secs) eqn:E; [|apply N.ltb_ge in E; lia].
+  destruct (hub_expire_s <? secs) eqn:E; [|apply N.ltb_ge in E; lia].
   destruct (fold_sessions h (h_expired h) close_session) as [h1 o1] eqn:H1.
   assert (D1 : get_sess h1 sid = None) by (rewrite (fst_eq _ _ _ H1); now apply fold_close_gone).
   match goal with |- context [let '(h2, o2) := ?X in _] => destruct X as [h2 o2] eqn:H2 end.
   assert (R2 : rel0 sid h1 h2).
-  { destruct (10 <? secs); [|injection H2 as <- <-; apply rel0_refl].
+  { destruct (hub_anonymous_s <? secs); [|injection H2 as <- <-; apply rel0_refl].
     rewrite (fst_eq _ _ _ H2). apply rel0_fold_sessions. intros hh y.
     destruct (get_sess hh y) as [s|]; [|apply rel0_refl].
     match goal with |- context [let '(h3, o3) := ?X in _] => destruct X as [h3 o3] eqn:H3 end.
@@ -1348,13 +1348,13 @@ Proof.
     eapply rel0_trans; [exact R3|apply rel0_close_session]. }
   match goal with |- context [let '(h3, o3) := ?X in _] => destruct X as [h3 o3] eqn:H3 end.
   assert (R3 : rel0 sid h2 h3).
-  { destruct (2 <? secs); [|injection H3 as <- <-; apply rel0_refl].
+  { destruct (hub_hello_s <? secs); [|injection H3 as <- <-; apply rel0_refl].
     rewrite (fst_eq _ _ _ H3). apply rel0_fold_sessions. intros hh y. apply rel0_send_conn. }
   cbn [fst]. apply (rel0_dead sid h2 h3 R3). apply (rel0_dead sid h1 h2 R2). exact D1.
 Qed.
 
 Theorem expiry_is_final q h sid secs :
-  Good h -> In sid (h_expired h) -> 30 < secs ->
+  Good h -> In sid (h_expired h) -> hub_expire_s < secs ->
   final q (fst (stepx q h (OTick secs))) sid.
 Proof.
   intros G Hin Hlt. pose proof G as [W I].
